@@ -108,6 +108,16 @@ CLAIMS = {
         'to multi-byte in 70% of the programs. A genuine defect found this way (find_contains_loc ignoring decorators) was repaired in /repo.',
    note='Trusted: Coq kernel/vm_compute; hand model Bistr.v tied by correspondence; tokenize (with multi-line end columns recomputed) and ast byte offsets as reference. No axioms.',
    design='DESIGN.md section 4 C06'),
+ 'C08': dict(
+   technique='Coq proof: repr_str_multiline round trip through the transcribed CPython triple-quoted literal reader for every string (quote choice, final-quote escape, repr+replace fallback); docstring indent/dedent inverse; container and tree round-trip laws; correspondence with astutil.repr_str_multiline and put_docstr/get_docstr; cut/put-back and replace-by-self oracles',
+   text='Proved (closed): for every string over an alphabet that distinguishes both quotes, backslash, newline, tab, NUL, other non-printable and printable characters, the literal built by the '
+        'transcribed repr_str_multiline is decoded by the transcribed CPython reader to exactly that string; get_docstr line dedent inverts the indentation of put (first line not starting '
+        'with whitespace); cut+put-back, put-own-slice and read-after-write laws of the slice semantics; replace-by-self / read-back / disjoint-paths laws on trees. Partial: that the concrete '
+        'put/cut code realises those laws per field, code_as_* normalisation, own_src and the line-comment accessor are decided by oracles on the real implementation (cut slice/one and put back '
+        'incl. Compare operators and virtual fields, replace by own copy / pure AST / own source, own_src re-parse, docstring and comment accessors with hostile texts). Two genuine defects '
+        'found this way were repaired in /repo; one is recorded as a known finding.',
+   note='Trusted: Coq kernel/vm_compute; hand model StrRepr.v tied by correspondence (model output == real output symbol by symbol, model reader == ast.literal_eval on the same literals); CPython parser as reference. No axioms.',
+   design='DESIGN.md section 4 C08'),
 }
 
 checks = []
